@@ -142,6 +142,10 @@ func genPackTree(rng *Rng, risky bool) (*TNode, bool, string) {
 	ignore := ""
 	if rng.Chance(45) {
 		ignore = genRuleFile(rng, false)
+		if rng.Chance(20) {
+			// a rule ending in ** that is no whole-segment **: matches files as well as directories
+			ignore += rng.Pick([]string{"a**", "b.txt**", "c**", "e.tf**", "sub**", "d**"}) + "\n"
+		}
 		src.Kids[".terraformignore"] = tfile(ignore, 0o644)
 		src.Kids[".terraformignore"].Mtime = 1400000001
 	}
@@ -157,7 +161,19 @@ func genPackTree(rng *Rng, risky bool) (*TNode, bool, string) {
 			"in":   tlink("g"), "up": tlink("../f")}),
 	})
 	outside.Kids["f"].Mtime, outside.Kids["f"].MtimeN = 1300000000, 500000000
+	if rng.Chance(15) {
+		// an external directory holding a dangling link whose text escapes at the archive position
+		outside.Kids["e"] = tdir(0o755, map[string]*TNode{"ok": tfile("e-ok", 0o644), "broken": tlink("../../gone"), "broken2": tlink("nowhere")})
+		src.Kids["to-e"] = tlink("../outside/e")
+		hasOutLink = true
+	}
 	if risky {
+		// a cycle of length two among directories outside the tree
+		outside.Kids["A"] = tdir(0o755, map[string]*TNode{"fa": tfile("fa", 0o644), "toB": tlink("../B")})
+		outside.Kids["B"] = tdir(0o755, map[string]*TNode{"fb": tfile("fb", 0o644), "toA": tlink("../A")})
+		if rng.Chance(50) {
+			src.Kids["to-cyc"] = tlink("../outside/A")
+		}
 		outside.Kids["loop"] = tlink("loop2")
 		outside.Kids["loop2"] = tlink("loop")
 		outside.Kids["d"].Kids["self"] = tlink("../d")
@@ -307,6 +323,7 @@ func runPackCase(c *PackCase, work string, rng *Rng, ignoreText string, hasOut b
 	for _, p := range all {
 		byNameTop[p.rel] = true
 	}
+	escapingLinkInDeref := false
 	ref := refParse(ignoreText)
 	useIgnore := c.Ignore || c.Legacy
 	// ---- C03 at Pack level: a file ships iff its own path is not excluded ----
@@ -380,6 +397,7 @@ func runPackCase(c *PackCase, work string, rng *Rng, ignoreText string, hasOut b
 					sig := []string{}
 					if c.Deref && strings.Contains(name, "/") {
 						sig = append(sig, "link_inside_dereferenced_directory")
+						escapingLinkInDeref = true
 					}
 					vs = append(vs, viol("C05", fmt.Sprintf("slug stores link %q -> %q which, read at its own position, points outside the archive root", name, e.Link), sig...))
 				}
@@ -430,7 +448,8 @@ func runPackCase(c *PackCase, work string, rng *Rng, ignoreText string, hasOut b
 					sig = append(sig, "entry_named_outside_root_after_nested_dereference")
 				}
 			}
-			if c.Deref {
+			if c.Deref && escapingLinkInDeref {
+				// the rejection is explained by a stored link already reported above (KF-C05-1)
 				sig = append(sig, "link_inside_dereferenced_directory")
 			}
 			vs = append(vs, viol("C05", "Unpack rejects the slug Pack produced from a tree with relative links: "+up.Err, sig...))
